@@ -145,24 +145,25 @@ CHECKS.update({
 # strengthening added after the seeded-change waves 4-8 (DESIGN.md section 10.4); appended to the level text
 ADDENDA = {
  "C01": "Later additions: streams of 160 HBFs whose orbit counter wraps around 2^32; a calibration-word series (CDW user field progressing over pages) and pages that end with a no-data TDH in the grammar; mixed configurations (links of different barrel / format in one stream); the CLI tier rotates trivial filters (a filter that selects everything present) and input from stdin; the configurations with detector-field status bits also set every TDT status flag and start the 8-bit packet counter at 255.",
- "C05": "Later additions: 13 scenarios - also two small worlds (every bounded queue of capacity 1, batches of 1 packet; vacuity guard: a queue was full) and two filtered-writing runs whose output file is part of the outcome and must equal the selected link's packets in every schedule; the stave scenarios carry one ALPIDE frame error per FEE (messages that name their FEE id). Non-blocking and timed channel operations (try_send, try_recv, recv_timeout, send_timeout, len) are scheduling points: a timeout is an environment answer, deferred by the default policy and placed anywhere else at the cost of one deviation.",
- "C02": "Later additions: the CLI leg rotates stdin and --filter-link of the faulty link; every fault is also laid on two sites of one stream (the later occurrence must be reported like the first); a fault in which an IHW of a later packet switches off the lane of that packet's first data word.",
- "C03": "Later additions: recognisable streams of 1 000 (quick) / 10^4 and 10^5 (thorough) packets; RDH version bytes 3, 4, 6, 7, 99, 100.",
+ "C05": "Later additions: 13 scenarios - also two small worlds (every bounded queue of capacity 1, batches of 1 packet; vacuity guard: a queue was full) and two filtered-writing runs whose output file is part of the outcome and must equal the selected link's packets in every schedule; the stave scenarios carry one ALPIDE frame error per FEE (messages that name their FEE id). Non-blocking and timed channel operations (try_send, try_recv, recv_timeout, send_timeout, len) are scheduling points: a timeout is an environment answer, deferred by the default policy and placed anywhere else at the cost of one deviation. A scenario with a detector other than ITS (system id 36) and the merge closure with that detector's statistics; no thread may still be running when the main thread ends.",
+ "C02": "Later additions: the CLI leg rotates stdin and --filter-link of the faulty link; every fault is also laid on two sites of one stream (the later occurrence must be reported like the first); a fault in which an IHW of a later packet switches off the lane of that packet's first data word. Also a catalogue fault in which the whole payload is 16 bytes of 0xFF (nothing but padding).",
+ "C03": "Later additions: recognisable streams of 1 000 (quick) / 10^4 and 10^5 (thorough) packets; RDH version bytes 3, 4, 6, 7, 99, 100. The CLI leg delivers stdin at once or in writes of 61 / 256 / 4096 bytes with pauses (short reads in the tool's own stdin reader).",
  "C04": "Later additions: damaged packets that the scanner steps over in RDH-only modes and under filters; payload sizes 1..=40 bytes; the thorough word search is capped at 300 000 states per configuration and reports the cap.",
  "C06": "Later additions: per-link variants with header-only packets and (check all only) with a memory size below the offset to the next packet.",
- "C07": "Later additions: links whose packets alternate between the two data formats; 16 quoted header fields compared with the decoded RDH; every run's message list is passed through the real StatsCollector (sort by offset / stave must not panic and must keep every message).",
+ "C07": "Later additions: links whose packets alternate between the two data formats; 16 quoted header fields compared with the decoded RDH; every run's message list is passed through the real StatsCollector (sort by offset / stave must not panic and must keep every message). In the modes that step over payloads every second packet of some streams has a memory size below the offset to the next RDH (quoted header rows must show both as they are).",
+ "C08": "Later additions: every other stdin run is fed by a slow producer (writes of 61 / 1000 bytes with pauses).",
  "C09": "Later additions: TDT flag bits in the alphabet, packets numbered by their pages counter, the invariant 'a legal word that passes its own rule is not reported' with the key telling first page / start of data apart.",
  "C10": "Later additions: HBFs of 65 534 / 65 535 data pages (page counter at the edge of its 16 bits).",
  "C11": "Later additions: data words judged with a history (an earlier packet announced the complementary lane mask; own IHW with a reserved bit; offsets beyond 2^32; the word before has an unrecognised identifier), and identifier 0xF8 after the start of the data is an out-of-range data word.",
- "C12": "Later additions: the rejected payload is played twice on a link (second rejection resets like the first), positions beyond 2^32, the padding message through the real collector's sort.",
- "C13": "Later additions: fatal-lane frame sequences to depth 3 (4 thorough) plus a 4-frame family (each lane fatal in every order with repetition, then every fourth frame); custom files with only chip orders / only chip count; a CLI leg with messages shown and muted (923 cases); every second case is rendered with all TDT status flags set (transmission timeout, lane starts violation, the three timeouts).",
- "C14": "Later additions: report rows Links observed, FEE IDs seen (wrapped cells, '... N more'), Run Trigger Type, RDH Version, Data Format, System ID (all 20 known ids), Total HBFs, Data size with its parts, Layers/Staves, Filter RDHs; 12 / 80 / 300 distinct FEE ids; custom-check failures in view modes; 1 000 / 70 000 packets; in every case the code list equals the codes of the listed messages (each once) and total_errors the number of listed messages; every sequence of length 2..4 over two fault kinds on successive packets; every other case finds an older, longer statistics file at the destination.",
+ "C12": "Later additions: the rejected payload is played twice on a link (second rejection resets like the first), positions beyond 2^32, the padding message through the real collector's sort. An all-0xFF word slot at every position but the last (word counts 3..12, both formats): it is a word, not padding.",
+ "C13": "Later additions: fatal-lane frame sequences to depth 3 (4 thorough) plus a 4-frame family (each lane fatal in every order with repetition, then every fourth frame); custom files with only chip orders / only chip count; a CLI leg with messages shown and muted (923 cases); every second case is rendered with all TDT status flags set (transmission timeout, lane starts violation, the three timeouts). Fatal-lane memory across lane groups: after a fatal lane in one group, frames of two lanes of another group (54 five-frame cases).",
+ "C14": "Later additions: report rows Links observed, FEE IDs seen (wrapped cells, '... N more'), Run Trigger Type, RDH Version, Data Format, System ID (all 20 known ids), Total HBFs, Data size with its parts, Layers/Staves, Filter RDHs; 12 / 80 / 300 distinct FEE ids; custom-check failures in view modes; 1 000 / 70 000 packets; in every case the code list equals the codes of the listed messages (each once) and total_errors the number of listed messages; every sequence of length 2..4 over two fault kinds on successive packets; every other case finds an older, longer statistics file at the destination. Streams in which every third packet belongs to another detector (system id 36) and some staves first occur in a later reader batch.",
  "C15": "Later additions: every second drift run also writes statistics; a second round trip writes again and the two files must be equal; every other job finds an older, longer statistics file at the destination.",
  "C16": "Later additions: a matching / mismatching earlier statistics file (-i) x 7 display option sets; a trivial filter, stdin or -v 0 change nothing; check all its-stave on a stream with an ALPIDE lane bunch-counter mismatch in the option-pair lattice; two FEE ids on one link id in stave mode (unit after unit and alternating per HBF) with a lane fault on the first / second / both; the earlier statistics file under 11 spellings of its name (rejected before any output, or processed like the plainly named file).",
- "C17": "Later additions: fatal framing errors on the real binary (6 offset-to-next values x first / middle / last packet x 5 modes); in every scheduler execution the any-errors flag must equal 'something was reported' (vacuity guard: both kinds occur); the real-signal runs use -E 7 and the exit status after one signal is judged; the shim code itself is run under the scheduler against real crossbeam (every operation sequence to depth 4 / 5 x capacities 1, 2, unbounded x non-blocking and timed operations).",
+ "C17": "Later additions: fatal framing errors on the real binary (6 offset-to-next values x first / middle / last packet x 5 modes); in every scheduler execution the any-errors flag must equal 'something was reported' (vacuity guard: both kinds occur); the real-signal runs use -E 7 and the exit status after one signal is judged; the shim code itself is run under the scheduler against real crossbeam (every operation sequence to depth 4 / 5 x capacities 1, 2, unbounded x non-blocking and timed operations). A stop cause (signal, error cap) followed by a fatal framing error: the fatal error must be recorded whenever the RDHs read show that the reader ran into it; no thread may still be running when the main thread ends (a detached writer); closed-pipe cases with outputs of a few hundred bytes.",
  "C18": "Later additions: cuts around the reader's 100-packet batch boundaries of a 306-packet stream, cuts of large payloads, cuts combined with a failing custom-checks file.",
- "C19": "Later additions: every nibble value in identifier and flag positions, arbitrary header bytes in view rdh, the styled run reading from stdin.",
- "C20": "Later additions: chip orders that are a prefix / an extension of the true ones; a custom file holding the true values changes nothing else (outer-layer and inner-barrel stave streams, clean and faulty, 3 modes, 4 key subsets).",
+ "C19": "Later additions: every nibble value in identifier and flag positions, arbitrary header bytes in view rdh, the styled run reading from stdin. Every ordered (warning lane, error lane) pair over lanes 0, 1, 4, 5, 13, 26, 27 in TDT / DDW0.",
+ "C20": "Later additions: chip orders that are a prefix / an extension of the true ones; a custom file holding the true values changes nothing else (outer-layer and inner-barrel stave streams, clean and faulty, 3 modes, 4 key subsets). Every subset of >= 2 keys configured wrong as a whole (each failing check reported).",
 }
 
 NOT_YET = {
